@@ -368,9 +368,10 @@ class _GenerateRenderMethod:
         )
         self.printer.writeline("def _mako_generate_namespaces(context):")
 
+        has_ns_imports = False
         for node in namespaces.values():
             if "import" in node.attributes:
-                self.compiler.has_ns_imports = True
+                has_ns_imports = True
             self.printer.start_source(node.lineno)
             if len(node.nodes):
                 self.printer.writeline("def make_namespace():")
@@ -446,6 +447,10 @@ class _GenerateRenderMethod:
         if not len(namespaces):
             self.printer.writeline("pass")
         self.printer.writeline(None)
+        if has_ns_imports:
+            # set only now: the defs written inside a <%namespace> tag above
+            # run in _mako_generate_namespaces(), where no _import_ns exists
+            self.compiler.has_ns_imports = True
 
     def write_variable_declares(self, identifiers, toplevel=False, limit=None):
         """write variable declarations at the top of a function.
